@@ -216,3 +216,68 @@ contract(SR + '._postamble', returns="Inst('%s')" % SR,
                  'AttributeError': 'not schema_valid(self.response)', 'TypeError': 'not schema_valid(self.response)'},
          modifies=['self.in_response_to', 'self.xmlstr', 'self.name_id', 'self.response', 'self.not_on_or_after'],
          clauses_from={'C13': ['valid-or-cleared']})
+
+_SIGCHK = ('implies(self.response is not None and truthy(self.response.signature) and not truthy(self.do_not_verify) '
+           'and truthy(self.response.id), SIG_OK(self.sec, xmldata, self.response, cname(self.response), None))')
+contract(SR + '._loads', types={'self': "Inst('%s')" % AR_, 'xmldata': 'Union(Str, Bytes)', 'decode': 'Any', 'origxml': 'Any'},
+         returns="Inst('%s')" % AR_,
+         ensures=[('self', 'result == self'),
+                  ('is-response', 'is_resp(xmldata)'),
+                  ('C02-required-response-signature', 'implies(truthy(self.require_response_signature), RP(xmldata))'),
+                  ('C01-response-signature-verified', _SIGCHK),
+                  ('signature-iff', 'implies(self.response is not None, truthy(self.response.signature) == RP(xmldata))'),
+                  ('C13-valid-or-cleared', 'self.response is None or (schema_valid(self.response) and '
+                                           'self.in_response_to == self.response.in_response_to and fresh(self.response))')],
+         raises={'TypeError': 'True', 'SigverError': 'True', 'IncorrectlySigned': 'True', 'Exception': 'True'},
+         modifies=['self.xmlstr', 'self.origxml', 'self.response', 'self.in_response_to', 'self.name_id',
+                   'self.not_on_or_after'],
+         clauses_from={'C02': ['C02-required-response-signature'], 'C01': ['C01-response-signature-verified'],
+                       'C13': ['C13-valid-or-cleared']})
+
+_ALLSC = ('forall(lambda a: forall(lambda j: as_type(%s.assertion, "List(Inst(\'saml2_tophat.saml:Assertion\'))")[a].subject.subject_confirmation[j]'
+          '.subject_confirmation_data is None or as_type(%s.assertion, "List(Inst(\'saml2_tophat.saml:Assertion\'))")[a].subject.subject_confirmation[j]'
+          '.subject_confirmation_data.in_response_to == %s, 0, '
+          'len(as_type(%s.assertion, "List(Inst(\'saml2_tophat.saml:Assertion\'))")[a].subject.subject_confirmation)), 0, '
+          'len(as_type(%s.assertion, "List(Inst(\'saml2_tophat.saml:Assertion\'))")))')
+contract(AR_ + '.check_subject_confirmation_in_response_to', types={'irp': 'Opt(Str)'}, returns='Bool',
+         ensures=[('C05-all-confirmations', 'implies(result is True, %s)' % (_ALLSC % ('self.response', 'self.response', 'irp', 'self.response', 'self.response')))],
+         raises={'AttributeError': 'self.response is None or not isinstance(self.response, "saml2_tophat.samlp:Response") or '
+                                   'exists(lambda a: ASS(self.response)[a].subject is None, 0, len(ASS(self.response)))'},
+         modifies=[],
+         loops={0: {'inv': ['forall(lambda a: forall(lambda j: seq0[a].subject.subject_confirmation[j].subject_confirmation_data is None or '
+                            'seq0[a].subject.subject_confirmation[j].subject_confirmation_data'
+                            '.in_response_to == irp, 0, len(seq0[a].subject.subject_confirmation)), 0, i0)']},
+                1: {'inv': ['forall(lambda j: seq1[j].subject_confirmation_data is None or '
+                            'seq1[j].subject_confirmation_data.in_response_to == irp, 0, i1)']}},
+         clauses_from={'C05': ['C05-all-confirmations']})
+
+contract(AR_ + '.loads', types={'xmldata': 'Union(Str, Bytes)', 'decode': 'Any', 'origxml': 'Any'},
+         returns="Inst('%s')" % AR_,
+         ensures=[('self', 'result == self'),
+                  ('is-response', 'is_resp(xmldata)'),
+                  ('C02-required-response-signature', 'implies(truthy(self.require_response_signature), RP(xmldata))'),
+                  ('C01-response-signature-verified', _SIGCHK),
+                  ('signature-iff', 'implies(self.response is not None, truthy(self.response.signature) == RP(xmldata))'),
+                  ('C13-valid-or-cleared', 'self.response is None or (schema_valid(self.response) and '
+                                           'self.in_response_to == self.response.in_response_to and fresh(self.response))'),
+                  # C05: unless unsolicited responses are allowed, InResponseTo names an outstanding request ...
+                  ('C05-solicited', 'implies(truthy(self.asynchop) and not truthy(self.allow_unsolicited), '
+                                    'self.in_response_to in self.outstanding_queries)'),
+                  # ... and every confirmation that names a request names that same one
+                  ('C05-confirmations-name-the-same-request',
+                   'implies(truthy(self.asynchop) and self.in_response_to in self.outstanding_queries and self.response is not None '
+                   'and isinstance(self.response, "saml2_tophat.samlp:Response") '
+                   'and forall(lambda a: ASS(self.response)[a].subject is not None, 0, len(ASS(self.response))), '
+                   'forall(lambda a: forall(lambda j: '
+                   'implies(SCS(self.response, a)[j].subject_confirmation_data is not None and '
+                   '        truthy(SCS(self.response, a)[j].subject_confirmation_data.in_response_to), '
+                   '        SCS(self.response, a)[j].subject_confirmation_data.in_response_to == self.in_response_to), '
+                   '0, len(SCS(self.response, a))), 0, len(ASS(self.response))))')],
+         raises={'TypeError': 'True', 'SigverError': 'True', 'IncorrectlySigned': 'True', 'UnsolicitedResponse': 'True',
+                 'Exception': 'True'},
+         modifies=['self.xmlstr', 'self.origxml', 'self.response', 'self.in_response_to', 'self.name_id',
+                   'self.not_on_or_after', 'self.came_from'],
+         clauses_from={'C05': ['C05-solicited', 'C05-confirmations-name-the-same-request'],
+                       'C02': ['C02-required-response-signature'], 'C01': ['C01-response-signature-verified']})
+macro('ASS', ['r'], 'as_type(r.assertion, "List(Inst(\'saml2_tophat.saml:Assertion\'))")')
+macro('SCS', ['r', 'a'], 'as_type(r.assertion, "List(Inst(\'saml2_tophat.saml:Assertion\'))")[a].subject.subject_confirmation')
